@@ -20,89 +20,142 @@ pub enum Sel {
     From(&'static str, &'static str),
 }
 
-pub const MANIFEST: &[(&str, &[Sel])] = &[
+/// One selected item with its group (flat work list in emission order)
+#[derive(Clone, Debug)]
+pub struct WorkItem {
+    pub group: String,
+    pub file: String,
+    pub sel: Sel,
+    /// added by the translator because a selected function calls it (not listed in the manifest)
+    pub followed: bool,
+}
+
+/// Groups in emission order (a group may only refer to items of earlier groups); each group becomes
+/// `Generated/Src/<Group>.lean`.  `Common` holds plain consts / enums that several groups use.
+pub const GROUPS: &[(&str, &[(&str, &[Sel])])] = &[
     (
-        "renet/src/packet.rs",
+        "Common",
         &[
-            Sel::Const("SLICE_SIZE"),
-            Sel::Struct("Slice"),
-            Sel::Enum("Packet"),
-            Sel::Enum("SerializationError"),
-            Sel::From("SerializationError", "BufferTooShortError"),
-            Sel::Method("Packet", "to_bytes"),
-            Sel::Method("Packet", "from_bytes"),
+            ("renet/src/packet.rs", &[Sel::Const("SLICE_SIZE")]),
+            ("renetcode/src/lib.rs", &[Sel::Const("NETCODE_VERSION_INFO"), Sel::Const("NETCODE_USER_DATA_BYTES")]),
+            ("renetcode/src/client.rs", &[Sel::Enum("DisconnectReason")]),
+            ("renetcode/src/token.rs", &[Sel::Enum("TokenGenerationError")]),
+            ("renetcode/src/error.rs", &[Sel::Enum("NetcodeError")]),
+            ("renet/src/error.rs", &[Sel::Enum("ChannelError")]),
         ],
     ),
     (
-        "renetcode/src/replay_protection.rs",
-        &[
-            Sel::Const("NETCODE_REPLAY_BUFFER_SIZE"),
-            Sel::Const("EMPTY"),
-            Sel::Struct("ReplayProtection"),
-            Sel::Method("ReplayProtection", "new"),
-            Sel::Method("ReplayProtection", "already_received"),
-            Sel::Method("ReplayProtection", "advance_sequence"),
-        ],
-    ),
-    ("renetcode/src/lib.rs", &[Sel::Const("NETCODE_VERSION_INFO"), Sel::Const("NETCODE_USER_DATA_BYTES")]),
-    (
-        "renetcode/src/serialize.rs",
-        &[
-            Sel::Fn("read_u64"),
-            Sel::Fn("read_u32"),
-            Sel::Fn("read_u16"),
-            Sel::Fn("read_u8"),
-            Sel::Fn("read_bytes"),
-            Sel::Fn("read_i32"),
-        ],
-    ),
-    ("renetcode/src/client.rs", &[Sel::Enum("DisconnectReason")]),
-    ("renetcode/src/token.rs", &[Sel::Enum("TokenGenerationError")]),
-    ("renetcode/src/error.rs", &[Sel::Enum("NetcodeError")]),
-    (
-        "renetcode/src/packet.rs",
-        &[
-            Sel::Enum("PacketType"),
-            Sel::Method("PacketType", "from_u8"),
-            Sel::Method("PacketType", "apply_replay_protection"),
-            Sel::Fn("sequence_bytes_required"),
-            Sel::Fn("encode_prefix"),
-            Sel::Fn("decode_prefix"),
-            Sel::Fn("write_sequence"),
-            Sel::Fn("read_sequence"),
-            Sel::Fn("get_additional_data"),
-            Sel::Struct("ChallengeToken"),
-            Sel::Method("ChallengeToken", "new"),
-            Sel::Method("ChallengeToken", "read"),
-            Sel::Method("ChallengeToken", "write"),
-        ],
+        "Replay",
+        &[(
+            "renetcode/src/replay_protection.rs",
+            &[
+                Sel::Const("NETCODE_REPLAY_BUFFER_SIZE"),
+                Sel::Const("EMPTY"),
+                Sel::Struct("ReplayProtection"),
+                Sel::Method("ReplayProtection", "new"),
+                Sel::Method("ReplayProtection", "already_received"),
+                Sel::Method("ReplayProtection", "advance_sequence"),
+            ],
+        )],
     ),
     (
-        "renetcode/src/server.rs",
-        &[
-            Sel::Struct("ConnectTokenEntry"),
-            Sel::StructView("NetcodeServer", &["connect_token_entries"]),
-            Sel::Method("NetcodeServer", "find_or_add_connect_token_entry"),
-        ],
-    ),
-    ("renet/src/error.rs", &[Sel::Enum("ChannelError")]),
-    (
-        "renet/src/remote_connection.rs",
-        &[
-            Sel::StructView("RenetClient", &["pending_acks"]),
-            Sel::Method("RenetClient", "add_pending_ack"),
-            Sel::Method("RenetClient", "acked_largest"),
-        ],
+        "Prefix",
+        &[(
+            "renetcode/src/packet.rs",
+            &[
+                Sel::Enum("PacketType"),
+                Sel::Method("PacketType", "from_u8"),
+                Sel::Method("PacketType", "apply_replay_protection"),
+                Sel::Fn("sequence_bytes_required"),
+                Sel::Fn("encode_prefix"),
+                Sel::Fn("decode_prefix"),
+            ],
+        )],
     ),
     (
-        "renet/src/channel/slice_constructor.rs",
+        "Slice",
+        &[(
+            "renet/src/channel/slice_constructor.rs",
+            &[Sel::Struct("SliceConstructor"), Sel::Method("SliceConstructor", "new"), Sel::Method("SliceConstructor", "process_slice")],
+        )],
+    ),
+    (
+        "Packet",
+        &[(
+            "renet/src/packet.rs",
+            &[
+                Sel::Struct("Slice"),
+                Sel::Enum("Packet"),
+                Sel::Enum("SerializationError"),
+                Sel::From("SerializationError", "BufferTooShortError"),
+                Sel::Method("Packet", "to_bytes"),
+                Sel::Method("Packet", "from_bytes"),
+            ],
+        )],
+    ),
+    (
+        "Acks",
+        &[(
+            "renet/src/remote_connection.rs",
+            &[
+                Sel::StructView("RenetClient", &["pending_acks"]),
+                Sel::Method("RenetClient", "add_pending_ack"),
+                Sel::Method("RenetClient", "acked_largest"),
+            ],
+        )],
+    ),
+    (
+        "TokenTable",
+        &[(
+            "renetcode/src/server.rs",
+            &[
+                Sel::Struct("ConnectTokenEntry"),
+                Sel::StructView("NetcodeServer", &["connect_token_entries"]),
+                Sel::Method("NetcodeServer", "find_or_add_connect_token_entry"),
+            ],
+        )],
+    ),
+    (
+        "NcSerialize",
         &[
-            Sel::Struct("SliceConstructor"),
-            Sel::Method("SliceConstructor", "new"),
-            Sel::Method("SliceConstructor", "process_slice"),
+            (
+                "renetcode/src/serialize.rs",
+                &[Sel::Fn("read_u64"), Sel::Fn("read_u32"), Sel::Fn("read_u16"), Sel::Fn("read_u8"), Sel::Fn("read_bytes"), Sel::Fn("read_i32")],
+            ),
+            ("renetcode/src/packet.rs", &[Sel::Fn("read_sequence"), Sel::Fn("get_additional_data")]),
         ],
+    ),
+    // the only byte-level writer that depends on group Prefix (`sequence_bytes_required`)
+    ("NcSequence", &[("renetcode/src/packet.rs", &[Sel::Fn("write_sequence")])]),
+    (
+        "NcToken",
+        &[(
+            "renetcode/src/packet.rs",
+            &[
+                Sel::Struct("ChallengeToken"),
+                Sel::Method("ChallengeToken", "new"),
+                Sel::Method("ChallengeToken", "read"),
+                Sel::Method("ChallengeToken", "write"),
+            ],
+        )],
     ),
 ];
+
+pub fn work_list() -> Vec<WorkItem> {
+    let mut v = Vec::new();
+    for (g, files) in GROUPS {
+        for (f, sels) in *files {
+            for s in *sels {
+                v.push(WorkItem { group: g.to_string(), file: f.to_string(), sel: *s, followed: false });
+            }
+        }
+    }
+    v
+}
+
+pub fn group_names() -> Vec<String> {
+    GROUPS.iter().map(|(g, _)| g.to_string()).collect()
+}
 
 /// Fuel of `while` loops: (file, fn as `Type::name` or `name`, one Rust expression per `while` in source
 /// order).  The expression is evaluated at loop entry; the emitted loop runs its body at most that many
